@@ -1,7 +1,7 @@
-(* Obligation C10/scaled_power_step_in_range.  Statement as printed by Coq from Inferno.C10.KernelProofs; proof by reference.
+(* Obligation C10/scaled_power_step_in_range.  Statement as printed by Coq from Inferno.C10.KernelRange; proof by reference.
    This file contains nothing else, so the statement cannot be weakened quietly. *)
 From Coq Require Import List ZArith Bool Arith Reals Lra Lia Permutation.
-From Inferno Require Import Base.Num Base.NumR Gen.Bounding C10.Updater C10.KernelProofs C10.AccProofs C10.OrderProofs C10.WorldProofs C10.UpdateProofs C10.InterleaveProofs.
+From Inferno Require Import Base.Num Base.NumR Gen.Bounding C10.Updater C10.KernelAlgebra C10.KernelRange.
 Import ListNotations.
 Open Scope R_scope.
 Theorem scaled_power_step_in_range : forall x p n mx mn up lp : R,
@@ -11,5 +11,5 @@ Theorem scaled_power_step_in_range : forall x p n mx mn up lp : R,
   1 <= lp ->
   0 <= p <= mx - mn ->
   0 <= n <= mx - mn -> mn <= x + bound_scaled_power RN x p n mx mn up lp <= mx.
-Proof. exact (@Inferno.C10.KernelProofs.scaled_power_step_in_range). Qed.
+Proof. exact (@Inferno.C10.KernelRange.scaled_power_step_in_range). Qed.
 Print Assumptions scaled_power_step_in_range.
